@@ -1,6 +1,7 @@
 (* C18 property theorems: statements only, each closed by [exact]. *)
 From Boltons Require Import Lib.Prelude Spec.C18_Spec Model.C18_Model
-  Proofs.C18_Bytes Proofs.C18_Mfr Proofs.C18_Utf8 Proofs.C18_StringRun Gen.C18_Gen Proofs.C18_Source.
+  Proofs.C18_Bytes Proofs.C18_Mfr Proofs.C18_Utf8 Proofs.C18_StringRun Gen.C18_Gen Proofs.C18_Source
+  Check.C18_Check Proofs.C18_Transfer.
 Open Scope N_scope.
 
 (* SpooledBytesIO: for EVERY max_size and every history of the listed calls
@@ -114,3 +115,30 @@ Proof.
   split; [reflexivity|]. vm_compute. discriminate.
 Qed.
 Print Assumptions C18_string_lines_refuted.
+
+(* How a run transfers the theorems to the code (Check/C18_Check.v): whenever the
+   checker finds that the model reproduces a Spooled run (agree), that run equals
+   the reference - so on every evaluated case `agree` alone already implies the
+   Spooled part of `holds`; for MultiFileReader agree implies holds outright. *)
+Theorem C18_transfer_bytes : forall ops runs r,
+  ref_run KBytes rf_empty ops = Some r ->
+  agree_runs (fun max => sb_run (sb_init max) ops) runs = true ->
+  Forall (fun g : run_group => spooled_member g -> snd g = r) runs.
+Proof. exact transfer_bytes. Qed.
+Print Assumptions C18_transfer_bytes.
+
+Theorem C18_transfer_string_partial : forall chunk ops runs r,
+  (1 <= chunk)%nat -> Forall op_valid ops ->
+  writes_odd_break ops = false \/ existsb is_line_op ops = false ->
+  ref_run KString rf_empty ops = Some r ->
+  agree_runs (fun max => ss_run (ss_init max chunk) ops) runs = true ->
+  Forall (fun g : run_group => spooled_member g -> snd g = r) runs.
+Proof. exact transfer_string. Qed.
+Print Assumptions C18_transfer_string_partial.
+
+Theorem C18_transfer_mfr : forall contents ops obs,
+  mref_pre_all ops = true ->
+  fst (fst (c18_verdict (CMfr contents ops obs))) = true ->
+  snd (fst (c18_verdict (CMfr contents ops obs))) = true.
+Proof. exact transfer_mfr. Qed.
+Print Assumptions C18_transfer_mfr.
